@@ -230,6 +230,34 @@ def memo_rule(prog, rep):
                   "the scoped store receives %s instead of a store thunk of the value" % (detail[:160] if sa else "nothing"))
 
 
+def strict_scoped_writes(prog, rep):
+    # S: strict definitions/assignments act on the evaluated scope node itself
+    rep.rule("C04.S", "strict `let/var/set @n.x`: the variable map written is that of the evaluated scope node itself — no ancestor walk (inheritance applies to reads only)")
+    for nm in ("add", "set"):
+        fl = [x for x in prog.find(self_ty="tsg::ast::ScopedVariable", name=nm) if "strict" in x.id]
+        if len(fl) != 1:
+            rep.violation("C04.S", "anchor-lost:strict ScopedVariable::%s" % nm, "", "not found")
+            continue
+        f = fl[0]
+        body, tr = f.body, Tracer(f.body)
+        gm = [(b, t) for b, t in body.calls() if is_callee(t, r"ScopedVariables::<'a>::get_mut$")]
+        w = [(b, t) for b, t in body.calls() if is_callee(t, r"variables::MutVariables::%s$" % nm)]
+        walks = [sp_str(t["sp"]) for g in [f] + prog.all_closures_under(f) for b, t in g.body.calls() if is_callee(t, r"tree_sitter::Node::<'tree>::parent$", r"ScopedVariables::<'a>::try_get$")]
+        ok = len(gm) == 1 and len(w) == 1 and not natural_loops(body) and not walks
+        if ok:
+            recv = canon(strip(tr.operand(w[0][1]["args"][0])))
+            key = canon(tr.operand(gm[0][1]["args"][1]))
+            ok = "ScopedVariables::get_mut(" in recv and "arg:self.scope" in key
+            # every successful return went through the map's own add/set (which is what refuses a second definition)
+            fails = e2._failure_blocks(body)
+            ok = ok and not (body.reach_from([0], avoid={w[0][0]} | fails) & set(body.return_blocks()))
+            if ok:
+                cons = e2.consume(body, e2.Uses(body), tr, w[0][1]["dest"]["l"]) if "p" not in w[0][1]["dest"] else []
+                ok = bool(cons) and all(c.kind in ("RETURN", "TRY", "MATCH-ERR") for c in cons)
+        rep.check(ok, "C04.S", "%s :: own map" % f.id, f.loc(), "scoped.get_mut(<evaluated self.scope>).%s(name, value)" % nm,
+                  "strict `%s` of a scoped variable does not (only) write the map of the evaluated scope node%s" % (nm, " (it walks ancestors at %s)" % walks[0] if walks else ""))
+
+
 def forcing_window(prog, rep):
     """While a name's cell is in the Forcing state (between replace(Forcing) and replace(Forced(map))), a read of the same name
     fails with RecursivelyDefinedScopedVariable.  The window may therefore contain only the forcing of the *scopes* (force);
@@ -363,25 +391,11 @@ def run(prog, rep):
                         if st["k"] == "assign" and st["rv"]["k"] == "aggregate" and st["rv"].get("variant") == variant:
                             ok = True
         rep.check(ok, "C04.D", "%s :: undefined" % fid, "", "a failed lookup constructs %s" % variant, "a failed lookup does not construct %s" % variant)
-    # S: strict definitions/assignments act on the evaluated scope node itself
-    rep.rule("C04.S", "strict `let/var/set @n.x`: the variable map written is that of the evaluated scope node itself — no ancestor walk (inheritance applies to reads only)")
-    for nm in ("add", "set"):
-        fl = [x for x in prog.find(self_ty="tsg::ast::ScopedVariable", name=nm) if "strict" in x.id]
-        if len(fl) != 1:
-            rep.violation("C04.S", "anchor-lost:strict ScopedVariable::%s" % nm, "", "not found")
-            continue
-        f = fl[0]
-        body, tr = f.body, Tracer(f.body)
-        gm = [(b, t) for b, t in body.calls() if is_callee(t, r"ScopedVariables::<'a>::get_mut$")]
-        w = [(b, t) for b, t in body.calls() if is_callee(t, r"variables::MutVariables::%s$" % nm)]
-        walks = [sp_str(t["sp"]) for g in [f] + prog.all_closures_under(f) for b, t in g.body.calls() if is_callee(t, r"tree_sitter::Node::<'tree>::parent$", r"ScopedVariables::<'a>::try_get$")]
-        ok = len(gm) == 1 and len(w) == 1 and not natural_loops(body) and not walks
-        if ok:
-            recv = canon(strip(tr.operand(w[0][1]["args"][0])))
-            key = canon(tr.operand(gm[0][1]["args"][1]))
-            ok = "ScopedVariables::get_mut(" in recv and "arg:self.scope" in key
-        rep.check(ok, "C04.S", "%s :: own map" % f.id, f.loc(), "scoped.get_mut(<evaluated self.scope>).%s(name, value)" % nm,
-                  "strict `%s` of a scoped variable does not (only) write the map of the evaluated scope node%s" % (nm, " (it walks ancestors at %s)" % walks[0] if walks else ""))
+    strict_scoped_writes(prog, rep)
+    # the per-node maps of strict mode are VariableMaps: the duplicate error originates in VariableMap::add
+    from ..engines import e5_writers as e5
+    rep.rule("E5.var", "VariableMap::add refuses every second definition (whatever the mutability flags); VariableMap::set writes mutable bindings only")
+    e5.variable_map_shape(prog, rep, "E5.var")
     memo_rule(prog, rep)
     forcing_window(prog, rep)
     from . import C02
@@ -391,7 +405,7 @@ def run(prog, rep):
     fns = [f for f in prog.fns.values() if f.crate.prefix == "tsg" and (
         (f.self_path in ("tsg::ast::ScopedVariable", "tsg::execution::lazy::store::LazyScopedVariables", "tsg::execution::strict::ScopedVariables",
                          "tsg::execution::lazy::values::LazyScopedVariable")) or
-        (f.parent and any(x in f.parent for x in ("ScopedVariable", "LazyScopedVariables"))))]
+        (f.parent and any(x in f.parent for x in ("ScopedVariable", "LazyScopedVariables"))) or f.file == "src/variables.rs")]
     n2, _ = e2.run_e2d(prog, rep, fns, e2.ABSORB)
     rep.floor("E2.d", n2, 15, "fallible calls in the scoped-variable code")
     rep.assume("the low 32 bits of tree-sitter node ids are injective within one tree")
